@@ -215,10 +215,10 @@ func c13VersionAnswersNameFreshSessions(w *World, r *Report) {
 			if !isTable || isConstNil(st.Val) {
 				return
 			}
-			for _, root := range provenance(st.Val, provOpts{}) {
-				if al, ok := root.(*ssa.Alloc); ok && al.Parent() == fn {
+			for _, root := range provInter(st.Val, 0) {
+				if al, ok := root.(*ssa.Alloc); ok {
 					if pt, ok := al.Type().(*types.Pointer); ok && types.Identical(pt.Elem(), uc) {
-						allocators[fn] = true
+						allocators[fn] = true // allocated here or by a builder helper this function calls
 					}
 				}
 			}
@@ -245,7 +245,7 @@ func c13VersionAnswersNameFreshSessions(w *World, r *Report) {
 			n++
 			key := fmt.Sprintf("store:VersionResponse.UserId@%s#%d", ssaFuncKey(fn), n)
 			bad := ""
-			for _, root := range provenance(st.Val, provOpts{}) {
+			for _, root := range provInter(st.Val, 0) {
 				if _, isC := root.(*ssa.Const); isC {
 					continue
 				}
@@ -268,8 +268,8 @@ func c13VersionAnswersNameFreshSessions(w *World, r *Report) {
 					fresh := false
 					switch x := oroot.(type) {
 					case *ssa.Alloc:
-						if x.Parent() != nil && allocators[x.Parent()] {
-							fresh = true
+						if pt, ok := x.Type().(*types.Pointer); ok && types.Identical(pt.Elem(), uc) {
+							fresh = true // an object allocated on this path cannot be somebody else's session
 						}
 					case *ssa.Extract:
 						if c, ok := x.Tuple.(*ssa.Call); ok && allocators[c.Call.StaticCallee()] {
@@ -570,7 +570,7 @@ func c11MandatoryStepsReportCommunicationErrors(w *World, r *Report) {
 		return
 	}
 	reachesExchange := func(f *ssa.Function) bool {
-		for _, g := range staticCone(f, 3) {
+		for _, g := range staticCone(f, 6) {
 			if g == qwd {
 				return true
 			}
@@ -637,7 +637,18 @@ func c11MandatoryStepsReportCommunicationErrors(w *World, r *Report) {
 		r.Undecided(rule, "steps", "-", "no mandatory step of Handshake found")
 		return
 	}
+	// a step may delegate one attempt to a helper: the helper is held to the same rule
+	var units []*ssa.Function
+	seenU := map[*ssa.Function]bool{}
 	for _, step := range steps {
+		for _, g := range staticCone(step, 1) {
+			if !seenU[g] && g != qwd && (g == step || reachesExchange(g)) && !strings.HasPrefix(g.Name(), "Send") && !strings.HasPrefix(g.Name(), "Query") {
+				seenU[g] = true
+				units = append(units, g)
+			}
+		}
+	}
+	for _, step := range units {
 		key := "step:" + ssaFuncKey(step) + "|communication-error-is-reported"
 		// exchanges inside the step: calls of module functions with an error result that reach QueryWithData
 		var exch []*ssa.Call
